@@ -126,7 +126,10 @@ func (r *Rule) isEqualsTo(newRule *Rule) bool {
 	case ErrorCount:
 		return util.Float64Equals(r.Threshold, newRule.Threshold)
 	default:
-		return false
+		// user-defined strategy: which of the remaining fields it uses is unknown, so compare them all
+		// (returning false made a rule unequal to an identical copy of itself, so every reload rebuilt
+		// the breaker and dropped its state)
+		return r.MaxAllowedRtMs == newRule.MaxAllowedRtMs && util.Float64Equals(r.Threshold, newRule.Threshold)
 	}
 }
 
